@@ -31,18 +31,43 @@ def genC01Cases (tier : String) (seed : Nat) : Array Case := Id.run do
 
 def kfParse (s : Stmt) : String := if supported s then "" else "C02-regex-shape"
 
+/-- note of a parse case: known-finding class and, for the subclass whose only known failure
+    is a reordering of same-symbol nested statements, what the judge needs to tell a
+    reordering from anything else -/
+def parseNote (s : Stmt) (chains : Json) : Json :=
+  if supported s then Json.mkObj [("kf", ("" : Json)), ("chains", chains)]
+  else if supportedUpToDup s then
+    Json.mkObj [("kf", ("C02-regex-shape" : Json)), ("kfkind", ("reorder" : Json)),
+      ("expSorted", (showNodeSorted (denoteTop s) : Json)), ("chains", chains)]
+  else Json.mkObj [("kf", ("C02-regex-shape" : Json)), ("chains", chains)]
+
 def genC02Cases (tier : String) (seed : Nat) : Array Case := Id.run do
   let n := if tier = "thorough" then 4000 else 260
   let mut out : Array Case := #[]
   let mut rng : Rng := ⟨UInt64.ofNat (seed * 15485863 + 3)⟩
   for i in [0:n] do
-    if i % 5 = 4 then
+    if i % 10 = 7 then
+      -- two nested statements of one symbol that contain logical operators, with a written
+      -- operator between them (known finding: they may come out in the other order)
+      let g : GS Stmt := do
+        let parts ← genFlatParts (← liftG (range 1 3)) 2
+        let sym ← liftG (pick Sym.nestables)
+        let a ← genFlatParts (← liftG (range 1 3)) 2
+        let b ← genFlatParts (← liftG (range 1 3)) 2
+        let opw ← liftG (pick [none, some "[AND]", some "[OR]", some "[XOR]"])
+        let mid : List Part := match opw with | some w => [.filler w.toList] | none => []
+        pure (.mk (parts ++ [.nested { sym := sym } (.mk a)] ++ mid ++ [.nested { sym := sym } (.mk b)]))
+      let ((s, _), rng') := (g.run 0) rng
+      rng := rng'
+      let c := parseCase s!"c02-d{i}" "two-nested-of-one-symbol" s
+      out := out.push { c with note := parseNote s c.note }
+    else if i % 5 = 4 then
       -- outside the supported class (known-finding class when it fails)
       let cfg : NestCfg := { depth := 2, propCombos := true }
       let (s, rng') := genNested cfg rng
       rng := rng'
       let c := parseCase s!"c02-u{i}" (if supported s then "random-supported" else "random-unsupported") s
-      out := out.push { c with note := Json.mkObj [("kf", (kfParse s : Json)), ("chains", c.note)] }
+      out := out.push { c with note := parseNote s c.note }
     else
       let (s, rng') := genSupC02 (if i % 4 = 0 then 3 else 2) rng
       rng := rng'
@@ -76,7 +101,24 @@ def judgeParse (c : Case) (o : ObsLine) : Verdict :=
         -- `pbad` (children whose Parent does not point back) is reported by the harness but is
         -- not a property: expanded pair statements deliberately point at the root node
         let _ := pbad
-        if got ≠ exp then .disagree "parse tree" exp got else .ok
+        if got = exp then .ok else
+        match (c.note.getObjValAs? String "kfkind").toOption with
+        | some "reorder" =>
+          -- known finding: the two same-symbol nested statements may come out in the other
+          -- order; anything else is a new failure
+          let expS := (c.note.getObjValAs? String "expSorted").toOption.getD ""
+          if showNodeSorted pn = expS then .disagree "parse tree" exp got else .disagree "[new] parse tree (not a mere reordering)" exp got
+        | some "retained-shared" =>
+          -- known finding: private values may additionally stay in the shared property tree
+          let psig := (c.note.getObjValAs? String "privSig").toOption.getD ""
+          let expLeaves := match c.note.getObjVal? "leaves" with | .ok (.arr a) => a.toList.filterMap (fun (x : Json) => x.getStr?.toOption) | _ => []
+          let privT := match c.note.getObjVal? "privTexts" with | .ok (.arr a) => a.toList.filterMap (fun (x : Json) => x.getStr?.toOption) | _ => []
+          let obsLeaves := leafTextsOf pn
+          let extra := obsLeaves.filter (fun t => !expLeaves.contains t)
+          let missing := expLeaves.filter (fun t => !obsLeaves.contains t)
+          if "\n".intercalate (privSigOf pn) = psig && missing.isEmpty && extra.all (privT.contains ·) then .disagree "parse tree" exp got
+          else .disagree "[new] parse tree (not only private values retained in the shared tree)" exp got
+        | _ => .disagree "parse tree" exp got
       | .error e => .disagree "unreadable node" ((c.exp.getStr?).toOption.getD "") e
     | _ => .disagree "node count" ((c.exp.getStr?).toOption.getD "") o.obs.compress
   | "err" => .disagree "rejected" ((c.exp.getStr?).toOption.getD "") ("ERR " ++ o.code)
